@@ -416,3 +416,27 @@ PROPS['C13']['functions'] = list(PROPS['C13']['functions']) + ['pysmi.compiler.M
 
 PROPS['C04']['modules'] = PROPS['C04']['modules'] + ['harness.x15']
 PROPS['C07']['modules'] = PROPS['C07']['modules'] + ['harness.c08_imports']          # "every module reachable through the IMPORTS ... has a status" starts with MibInfo.imported
+
+# ---- MANIFEST texts after round 3 ------------------------------------------------------------------------------------------
+MANIFEST_TEXT['C05']['level_text'] += (' pysnmp side (EXEC): for every solver-explored shape with values from pools, the generated module is loaded and its '
+                                       'ranges / sizes (probed at every bound), named values, named bits and defaults are compared with the JSON document.')
+MANIFEST_TEXT['C05']['level_note'] = 'Trusted: CrossHair/z3, PLY; for the EXEC conditions Jinja2, CPython and pysnmp as the judge. Outside: values outside the pools on the pysnmp side, chains longer than 3.'
+MANIFEST_TEXT['C06']['level_text'] += (' pysnmp side (EXEC): node classes, setIndexNames, registerAugmentions and setObjects of the loaded module vs the JSON document '
+                                       'for every solver-explored table / list / compliance shape.')
+MANIFEST_TEXT['C06']['level_note'] = 'Trusted: CrossHair/z3, PLY; Jinja2/CPython/pysnmp for the EXEC conditions.'
+MANIFEST_TEXT['C15']['level_text'] = ('JSON side solver-exhaustive within bounds for every text-bearing clause x genTexts x filter (one symbolic text per clause); per-call '
+                                      'text filter does not leak between calls; pysnmp side: z3 regex-theory query per paste site (safe language derived from the site\'s filters) and - EXEC - '
+                                      'every clause x 16 critical texts (apostrophes, line breaks, non-ASCII, template/format syntax, long words, hyphen chains, HTML-special characters, '
+                                      'backslashes) executed and read back.')
+MANIFEST_TEXT['C16']['level_text'] += ' pysnmp side (EXEC): both the SMIv1 module and its transliteration are generated with the real template, loaded and compared with their JSON documents.'
+MANIFEST_TEXT['C10']['technique'] = ('CrossHair symbolic execution of MibCompiler.compile (z3) and of the four searchers over a model file system / fake package loader '
+                                     '(unbounded symbolic times); real .pyc files for the header layout')
+MANIFEST_TEXT['C10']['level_text'] += (' Searchers: AnyFile / PyFile / PyPackage (egg and directory branch) / Stub with unbounded symbolic modification times around equality, '
+                                       'directories named like the module, distractor files, faults; PyFileSearcher additionally on genuine py_compile output.')
+MANIFEST_TEXT['C13']['technique'] += '; real compile() for the writeMibs/dryRun hand-over; two real putData() threads under a symbolic schedule'
+MANIFEST_TEXT['C13']['level_text'] += ' compile() hands nothing to the writer for real when writing is disabled or in dry-run mode (all option / outcome combinations of the 2-module shard).'
+MANIFEST_TEXT['C12']['level_text'] += (' Also: results handed back for one module are not altered by processing the next (aliasing), two releases of the same module names, '
+                                       'the same compiler object called twice (compile harness), all set iteration orders with forward references.')
+MANIFEST_TEXT['C17']['level_text'] += ' Every relaxed p_* function agrees with the base function on every alternative both have (children from a pool incl. falsy values).'
+MANIFEST_TEXT['C18']['level_text'] += ' Summary fields (identity / enterprise / compliance / oids) from the real parser + generators for identity-only / compliance-only modules, and the index built from them.'
+MANIFEST_TEXT['C08']['level_text'] += ' MibInfo.imported of the real symbol-table builder names every module of the IMPORTS clause and the SMIv2 homes, for all 248 entries of the import map.'
